@@ -197,6 +197,18 @@ def strip_bonding_descriptors(fragment_string):
             current_order = None
         elif token in '] H . - = # $ : + -':
             smile += token
+        # the expansion operator of CGsmiles fragments repeats the previous
+        # node (or the previous branch including its anchor)
+        elif token == '|':
+            multiplier = ""
+            while smile_iter.peek() and smile_iter.peek().isdigit():
+                multiplier += next(smile_iter)
+            smile += token + multiplier
+            # the repeated unit starts at the node the cursor is on; all
+            # that follows refers to the last copy of that unit
+            offset = (int(multiplier) - 1) * (node_count - prev_node)
+            node_count += offset
+            prev_node += offset
         # deal with ez isomers
         elif token in '/ \\':
             ez_isomer_atoms[node_count] = token
